@@ -381,6 +381,16 @@ func (r *Run) step(i ssa.Instruction, prev *ssa.BasicBlock) {
 		} else {
 			set(avU)
 		}
+	case *ssa.Alloc:
+		/* A fresh variable holds its type's zero value. */
+		if l := r.locOf(x); "" != l {
+			if pt, ok := x.Type().Underlying().(*types.Pointer); ok {
+				if z := zeroAV(pt.Elem()); avUnknown != z.K {
+					r.Mem[l] = z
+				}
+			}
+		}
+		set(avNonNil)
 	case *ssa.Field:
 		if pa, ok := x.X.(*ssa.Parameter); ok && nil != r.M.ParamField {
 			if a, ok := r.M.ParamField(pa, x.Field); ok {
@@ -596,4 +606,22 @@ func (r *Run) locOf(addr ssa.Value) string {
 		return ""
 	}
 	return fmt.Sprintf("elem@%p[%d]", al, k.N)
+}
+
+// zeroAV is the abstract zero value of a type (avU for aggregates).
+func zeroAV(t types.Type) AV {
+	switch u := t.Underlying().(type) {
+	case *types.Basic:
+		switch {
+		case 0 != u.Info()&types.IsString:
+			return avEmptyS
+		case 0 != u.Info()&types.IsBoolean:
+			return avFalse
+		case 0 != u.Info()&types.IsInteger:
+			return avIntOf(0)
+		}
+	case *types.Pointer, *types.Interface, *types.Signature, *types.Map, *types.Chan, *types.Slice:
+		return avNilV
+	}
+	return avU
 }
